@@ -88,10 +88,14 @@ func (b *Bridge) RealServer() stream.Maker {
 	return func(raw net.Conn) (net.Conn, error) { return b.SF.WrapConn(raw) }
 }
 
+// one client factory per process, as in obfs4proxy (clientSetup creates it once per transport and every connection
+// goes through it): whatever the factory carries from one connection to the next is part of what the drivers observe
+var clientFactory, _ = (&obfs4.Transport{}).ClientFactory("")
+
 // RealClient: the real client factory, bridge line in cert form or legacy node-id/public-key form.
 func (b *Bridge) RealClient(iat int, legacy bool) stream.Maker {
 	return func(raw net.Conn) (net.Conn, error) {
-		cf, _ := (&obfs4.Transport{}).ClientFactory("")
+		cf := clientFactory
 		a := &pt.Args{"cert": {b.Cert}, "iat-mode": {fmt.Sprint(iat)}}
 		if legacy {
 			a = &pt.Args{"node-id": {b.NodeHex}, "public-key": {b.PubHex}, "iat-mode": {fmt.Sprint(iat)}}
